@@ -9,6 +9,8 @@ CLAIMS = {
 }
 CLAIMS['C20'] = dict(text='Finite domain covered completely by symbolic variables: every Unicode scalar value through the real encoder, every 4-hex-digit group in both cases, and every \\uXXXX / surrogate-pair escape (with optional neighbours) through the real un-escaper, compared with a reference encoder, for UTF-8/16/32.',
              note='FixedStream stand-in for the stream parameter; clang -O1 lowering; ll2c translation (self-checked every run).', ref='6/C20')
+CLAIMS['C05'] = dict(text='Modular bounded model checking of the real parser functions: each of Parse/parseValue/parseObject/parseArray/UnEscape/stringToNumber alone over an exact-size, fully symbolic buffer of every length up to N from an arbitrary cursor, callees under assume-guarantee contracts (precondition asserted at each call site, progress postcondition asserted at each exit); by induction over call depth this gives memory safety and termination at every nesting depth for buffers up to N. Counterexamples are lifted to JSON::Parse on an exact-size heap buffer under ASan.',
+             note='Bounded: N = 5 (quick) / 8 (thorough) units, 3 widths. Heap-free Value/String stand-ins in cursor harnesses; power-of-ten kernels havoc. The 512-nesting-levels stack clause is not addressed (resource property). clang -O1 lowering.', ref='6/C05')
 NA = {}
 def main():
     props = [json.loads(l)['id'] for l in open(os.path.join(ROOT, 'properties.jsonl'))]
